@@ -15,13 +15,14 @@
     model_alphabet_is_overridden_interface default_loader_bounded
     recency_is_last_use_order evicted_is_least_recently_used wf_check_decides_wf
     reload_current_noshadow_partial cache_holds_most_recently_used
-    load_after_eviction_parses
+    load_after_eviction_parses loader_cache_is_wellformed_lru
 -/
 import Genshi.Lemmas.Lru
 import Genshi.Lemmas.LruAbs
 import Genshi.Lemmas.LruTime
 import Genshi.Lemmas.LruCheck
 import Genshi.Lemmas.Loader
+import Genshi.Lemmas.LoaderLru
 import Genshi.Gen.Loader
 namespace Genshi.Props.C15
 open Genshi.Lru
@@ -381,6 +382,16 @@ theorem loader_cache_bounded (cfg : Cfg) (ops : List HOp) :
   have hc := hrun_cap cfg (World.init cfg.cap) ops
   have hc' : (hrun cfg (World.init cfg.cap) ops).1.ls.cache.cap = cfg.cap := hc
   exact ⟨Nat.le_trans hi.awf.1 (Nat.le_of_eq hc'), hi.awf.2⟩
+
+/-- The chain closed: `load` touches its cache only through `__getitem__` and `__setitem__`,
+    so after every history the abstract cache the loader theorems speak about is represented by
+    a well-formed concrete `LRUCache` structure — the one those container operations build
+    from `LRUCache(max_cache_size)`. -/
+theorem loader_cache_is_wellformed_lru (cfg : Cfg) (ops : List HOp) (d : Node Key Tmpl) :
+    ∃ (cops : List (Op Key Tmpl)) (c : CLru Key Tmpl) (outs : List (Out Key Tmpl)),
+      crun (Genshi.Lru.empty cfg.cap d) cops = some (c, outs) ∧ Wf c ∧
+      abs c = some (hrun cfg (World.init cfg.cap) ops).1.ls.cache :=
+  hrun_concrete cfg ops d
 
 /-- … in particular with the constructor's default `max_cache_size`. -/
 theorem default_loader_bounded (path : List Entry) (ar : Bool) (ops : List HOp) :
